@@ -305,7 +305,7 @@ def sec_theory(rep):
     for i, (fns, nf_ff) in enumerate(cases):
         rep.cases += 1
         # every perturbative order the card can name is handed on unchanged (PTO 0..3 over the history)
-        th = H.base_theory(FNS=fns, NfFF=nf_ff, PTO=(1, 3, 0, 2, 3, 3, 1, 2)[i], XIR=0.5, XIF=2.0, alphaqed=0.0078, kcThr=1.2 + 0.05 * i, kbThr=0.8 + 0.03 * i, ktThr=1.0 + 0.01 * i)
+        th = H.base_theory(FNS=fns, NfFF=nf_ff, PTO=(1, 3, 0, 2, 3, 3, 1, 2)[i], QED=(0, 1, 2, 0, 1, 2, 1, 0)[i], XIR=0.5, XIF=2.0, alphaqed=0.0078, kcThr=1.2 + 0.05 * i, kbThr=0.8 + 0.03 * i, ktThr=1.0 + 0.01 * i)
         th["mc"] *= 1 + 0.02 * i
         th["mb"] *= 1 + 0.01 * i
         th["nfref"] = 5 if i % 2 == 0 else 4
@@ -385,7 +385,7 @@ def run(rep, tier, seed, only=None):
         "array shapes 1..3 x 1..3 (the contraction is a real numpy einsum over object arrays; A-np)",
     )
     rep.stub("eko.couplings.Couplings, eko.matchings.Atlas, nf_default -> recording stubs", "PDF / alpha_s / alpha_qed -> uninterpreted")
-    for nm, f in (("result", sec_result_apply), ("linearity", sec_linearity), ("output", sec_output), ("theory", sec_theory)):
+    for nm, f in (("result", sec_result_apply), ("linearity", sec_linearity), ("output", sec_output), ("names", H.observable_names_contract), ("theory", sec_theory)):
         if only and only not in nm:
             continue
         rep.add(guarded(f"C17/{nm}", lambda f=f: (f(rep), [])[1]))
